@@ -11,6 +11,11 @@ use.  `features` selects optional input classes, several of which are known-find
   var_names_clash ... and from CLASH_VAR_NAMES                                       (F7/F18 for variables)
   var_defaults    (with var_names*) some variables get default literals
   arg_probe       both custom scalars + root fields probe0..n whose arguments cover all wrapper shapes (C03/C07)
+  subscriptions   a Subscription root type + subscription operations (async client forced); drawn from a
+                  SEPARATE rng so that the schema/operations of features=() are unchanged     (C15)
+  toplevel        extra operations shaped for C15: exactly one top-level field of every kind (leaf, enum,
+                  custom scalar, list, object, interface, union, aliased, __typename only, via a fragment on
+                  the root type) and one with several; separate rng as well                  (C15)
 
 The main stream (features=()) stays inside the part of GraphQL the generator is expected to handle.
 """
@@ -84,6 +89,7 @@ class Gen:
         self.features = tuple(features)
         self.size = size
         self.weird = "weird_names" in self.features
+        self.rng2 = random.Random(seed * 7919 + 15)  # extra streams (subscriptions / toplevel) only
 
     # ------------------------------------------------------------------ schema
     def word(self, used: set, pool=None) -> str:
@@ -225,6 +231,15 @@ class Gen:
             self.mutation_fields["update" + c] = (c + r.choice(["", "!"]),
                                                    [("input", r.choice(in_names) + "!", None),
                                                     ("dryRun", "Boolean", "false")])
+        self.subscription_fields = {}
+        if "subscriptions" in self.features:
+            r2 = self.rng2
+            n = 0
+            for c in r2.sample(composite, min(len(composite), 2)) + r2.sample(leafs, 2):
+                args = [("n", "Int", None)] if r2.random() < 0.5 else []
+                wraps = WRAPPERS[:2] if r2.random() < 0.6 else WRAPPERS
+                self.subscription_fields[f"on{c}{n}"] = (r2.choice(wraps).format(c), args)
+                n += 1
         return self.sdl()
 
     def default_literal(self, t: str, base: str) -> str:
@@ -277,6 +292,8 @@ class Gen:
         out.append(f"type Query {{\n{fields_sdl(self.query_fields)}\n}}")
         if self.mutation_fields:
             out.append(f"type Mutation {{\n{fields_sdl(self.mutation_fields)}\n}}")
+        if getattr(self, "subscription_fields", None):
+            out.append(f"type Subscription {{\n{fields_sdl(self.subscription_fields)}\n}}")
         return "\n\n".join(out) + "\n"
 
     # -------------------------------------------------------------- operations
@@ -298,11 +315,101 @@ class Gen:
             if self.opvars:
                 vars_txt = "(" + ", ".join(f"${n}: {t}" + (f" = {d}" if d else "") for n, t, d in self.opvars) + ")"
             ops.append(f"{kind} {name}{vars_txt} {sel}")
+        ops += self.extra_operations(gschema, depth)
         frs = [f"fragment {n} on {t} {s}" for n, (t, s) in self.frags.items()]
         if r.random() < 0.3 and self.gs.query_type:
             frs.append("fragment UnusedFrag on Query { __typename }")
         r.shuffle(frs)
         return "\n\n".join(ops + frs) + "\n"
+
+    def extra_operations(self, gschema, depth):
+        """Operations of the `subscriptions` / `toplevel` features, drawn from rng2 (main stream untouched)."""
+        if not ({"subscriptions", "toplevel"} & set(self.features)):
+            return []
+        ops = []
+        main_rng, self.rng = self.rng, self.rng2
+        try:
+            r = self.rng
+            k = 0
+
+            def required_args(fdef):
+                from graphql import Undefined
+
+                parts = []
+                for an, a in fdef.args.items():
+                    required = isinstance(a.type, GraphQLNonNull) and a.default_value is Undefined
+                    if required or r.random() < 0.6:
+                        parts.append(f"{an}: {self.variable(str(a.type))}")
+                return "(" + ", ".join(parts) + ")" if parts else ""
+
+            def valid(op_text):
+                from graphql.validation import NoUnusedFragmentsRule
+
+                rules = [x for x in specified_rules if x is not NoUnusedFragmentsRule]
+                frs = "\n".join(f"fragment {n} on {t} {s_}" for n, (t, s_) in self.frags.items())
+                try:
+                    return not validate(gschema, parse(op_text + "\n" + frs), rules)
+                except Exception:
+                    return False
+
+            def one(kind, root, fname, alias=""):
+                nonlocal k
+                for _attempt in range(4):
+                    snapshot = dict(self.frags)
+                    self.opvars = []
+                    fdef = root.fields[fname]
+                    named = get_named_type(fdef.type)
+                    sub = ""
+                    if is_composite_type(named):
+                        sub = " " + self.selection(named, max(1, depth - 1))
+                    body = f"{alias}{fname}{required_args(fdef)}{sub}"
+                    vars_txt = ""
+                    if self.opvars:
+                        vars_txt = "(" + ", ".join(f"${n}: {t}" for n, t, _d in self.opvars) + ")"
+                    k += 1
+                    text = (f"{kind} {r.choice(['Top', 'Single', 'watch', 'On'])}{fname[0].upper()}{fname[1:]}X{k}"
+                            f"{vars_txt} {{ {body} }}")
+                    if valid(text):
+                        return [text]
+                    self.frags = snapshot
+                return []
+
+            if "subscriptions" in self.features and gschema.subscription_type:
+                names = list(gschema.subscription_type.fields)
+                for fname in r.sample(names, min(len(names), r.randint(2, 3))):
+                    ops += one("subscription", gschema.subscription_type, fname)
+            if "toplevel" in self.features:
+                q = gschema.query_type
+                names = list(q.fields)
+                r.shuffle(names)
+                seen_kinds = set()
+                for fname in names:
+                    named = get_named_type(q.fields[fname].type)
+                    kind = type(named).__name__ + ("/" + named.name if is_leaf_type(named) else "")
+                    if kind in seen_kinds and r.random() < 0.6:
+                        continue
+                    seen_kinds.add(kind)
+                    ops += one("query", q, fname, alias="al: " if r.random() < 0.25 else "")
+                k += 1
+                ops.append(f"query OnlyTypename{k} {{ __typename }}")
+                leaf_names = [n for n in names if is_leaf_type(get_named_type(q.fields[n].type))
+                              and not q.fields[n].args]
+                if leaf_names:
+                    k += 1
+                    fn = f"RootFrag{k}"
+                    self.frags[fn] = ("Query", "{ " + leaf_names[0] + " }")
+                    ops.append(f"query ViaRootFrag{k} {{ ...{fn} }}")
+                    if len(leaf_names) > 1:
+                        k += 1
+                        ops.append(f"query FragPlusField{k} {{ ...{fn} {leaf_names[1]} }}")
+                        k += 1
+                        ops.append(f"query Several{k} {{ {leaf_names[0]} second: {leaf_names[1]} __typename }}")
+                if gschema.mutation_type:
+                    fname = next(iter(gschema.mutation_type.fields))
+                    ops += one("mutation", gschema.mutation_type, fname)
+        finally:
+            self.rng = main_rng
+        return ops
 
     def variable(self, type_str: str, default=None) -> str:
         n = f"v{len(self.opvars)}"
@@ -532,6 +639,8 @@ def make(seed: int, features=(), n_ops: int = 4, depth: int = 3, size: int = 2, 
             "async_client": r.random() < 0.5,
             "opentelemetry_client": r.random() < 0.25,
         }
+        if "subscriptions" in features:
+            cfg["async_client"] = True  # the generator refuses subscriptions for the sync client
         files = {}
         if "DateTime" in g.custom and r.random() < 0.7:
             files, sc = scalar_module()
